@@ -27,7 +27,7 @@ def run(pid, tier, seed, root, repo, env):
         out["counts"]["C18-types-accepted-by-rustc-as-Send+Sync"] = 13
         runs = [(8, 300)] if tier == "quick" else [(2, 400), (4, 400), (8, 800), (16, 1500), (16, 1500)]
         for k, (threads, states) in enumerate(runs):
-            rc, so, se = _run([os.path.join(harness, "target", "release", "sendsync"), str(seed * 100 + k), str(threads), str(states)], env, 1800)
+            rc, so, se = _run([os.path.join(harness, "target", "release", "sendsync"), str(seed * 100 + k), str(threads), str(states), "60" if tier == "quick" else "150"], env, 1800)
             try:
                 r = json.loads(so.strip().splitlines()[-1])
             except Exception:
@@ -35,6 +35,7 @@ def run(pid, tier, seed, root, repo, env):
             out["evals"] += r.get("expansions", 0)
             out["nontrivial"] += r.get("states", 0)
             out["counts"]["C18-concurrent-expansions"] = out["counts"].get("C18-concurrent-expansions", 0) + r.get("expansions", 0)
+            out["counts"]["C18-clones-racing-with-first-expansion"] = out["counts"].get("C18-clones-racing-with-first-expansion", 0) + r.get("clone_races", 0)
             out["samples"].append({"sendsync": r})
             if rc != 0:
                 out["fails"].append({"prop": "C18", "what": "concurrent-expansion-differs-from-sequential", "start": "sendsync %d %d %d" % (seed * 100 + k, threads, states),
